@@ -71,6 +71,7 @@ type Report struct {
 func main() {
 	dir := flag.String("dir", "/repo/zygo", "package directory")
 	hdir := flag.String("harness", "/verif/harness", "directory with zz_verif_*.go harness files")
+	extra := flag.String("extra", "", "comma-separated extra Go files (generated harness data) added to the overlay")
 	run := flag.String("run", "^vh_", "regexp selecting harness functions")
 	workers := flag.Int("workers", 16, "parallel workers")
 	solver := flag.String("solver", "z3", "z3 | z3-new | cvc5")
@@ -106,6 +107,9 @@ func main() {
 	t0 := time.Now()
 	overlay := map[string][]byte{}
 	files, _ := filepath.Glob(filepath.Join(*hdir, "zz_verif_*.go"))
+	if *extra != "" {
+		files = append(files, strings.Split(*extra, ",")...)
+	}
 	for _, f := range files {
 		if strings.HasSuffix(f, "_test.go") {
 			continue
